@@ -23,7 +23,7 @@ ASSUMPTIONS = [
     "zero-length files are not put on cassettes here (known finding F-C06-empty-file-ends-listing belongs to C06)",
     "whether an addition that cannot fit is refused is C15's business; here only the files already stored are watched after it",
 ]
-HEALTH = {"sessions>=2": 0.2, "kind:cas": 0.12, "kind:dsk": 0.12, "big_cassette": 4}
+HEALTH = {"sessions>=2": 0.2, "kind:cas": 0.12, "kind:dsk": 0.12, "big_cassette": 4, "big_cassette_whole_sectors": 4, "refused_add": 8}
 EXHAUSTIVE = {}
 
 _cas_file = filegen.cas_file(min_len=1, big_weight=0)
@@ -82,6 +82,18 @@ def enumerated(tier, seed):
     for mode, k in ((2, 0), (2, 0xFF), (3, 7)):
         yield dict(kind="cas", level="virtualfile", steps=[[_big_file(65535, k, mode, "A"), _big_file(65535, k, mode, "B")],
                                                          [_big_file(65535, k, mode, "C")], [_big_file(10, 1, 0, "D")]])
+    # tapes of >= 161,280 bytes whose total length is a multiple of 256 (a whole number of disk sectors), zero filled:
+    # the last file's length is chosen so that the image written by the independent writer has such a length
+    from checks import c10
+    for j in range(10):
+        first = [dict(_big_file(65535 - 7 * j, 0, 2, "ZA"), ext="BIN"), dict(_big_file(65535 - 3 * j, 0, 2, "ZB"), ext="BIN"),
+                 dict(_big_file(40000 + j, 0, 2, "ZC"), ext="BIN")]
+        base = len(c10.make_cas([dict(f, data=b"") for f in first])) + sum(f["data"]["n"] + 6 * ((f["data"]["n"] + 254) // 255) for f in first)
+        for n in range(1, 256):
+            extra = len(c10.make_cas([dict(_big_file(n, 0, 2, "ZD"), ext="BIN", data=bytes(n))]))
+            if (base + extra) % 256 == 0:
+                yield dict(kind="cas", level="virtualfile", steps=[first[:2], [first[2]], [_big_file(n, 0, 2, "ZD")], [_big_file(5, 1, 0, "ZE")]])
+                break
     # tapes that keep growing past 256 KiB and 512 KiB (any total size): every re-open must still see every file
     yield dict(kind="cas", level="virtualfile", steps=[[_big_file(65535, 1, 0, "A"), _big_file(65535, 2, 0, "B")], [_big_file(65000, 3, 0, "C")],
                                                      [_big_file(64000, 4, 0, "D"), _big_file(63000, 5, 0, "E")], [_big_file(10, 6, 0, "F")],
@@ -204,6 +216,8 @@ def execute(case):
             raw = open(path, "rb").read()
             if kind == "cas" and len(raw) >= dskref.IMAGE_SIZE:
                 labels.append("big_cassette")
+                if len(raw) % 256 == 0:
+                    labels.append("big_cassette_whole_sectors")
             # 1. independent reader
             try:
                 if kind == "cas":
